@@ -41,7 +41,7 @@ COMPONENTS = {
              "time/queue modules inside canopen.sdo.client (virtual clock, SimQueue)",
              "SDO server (RefSdoServer reference model)"],
 }
-PROBES = ["dl-exp", "dl-seg", "ul-exp_size", "ul-exp_nosize", "ul-seg_size", "ul-seg_nosize",
+PROBES = ["closed-twice", "dl-exp", "dl-seg", "ul-exp_size", "ul-exp_nosize", "ul-seg_size", "ul-seg_nosize",
           "closing-empty-segment", "truncated-to-od-size", "zero-progress-write-loop"]
 
 LENS = list(range(65)) + [69, 70, 71, 127, 128, 889, 890, 891, 1023, 1024, 1025, 1026]
@@ -294,6 +294,7 @@ def _download(ctx, ch, node, srv, index, sub, length, api, variant, okind, ntype
         chunks, chunk_class = _chunks(ctx, length, length <= 16)
         buffering = 0 if api == "raw" else _buffering(ctx)
         flush_some = ctx.choice(3, "flush") == 1
+        close_twice = ctx.choice(3, "closetwice") == 1
 
         def do():
             nonlocal zero_loop
@@ -316,6 +317,8 @@ def _download(ctx, ch, node, srv, index, sub, length, api, variant, okind, ntype
                             offer -= n
                 finally:
                     fp.close()
+                    if close_twice:
+                        fp.close()      # io: "This method has no effect if the file is already closed"
                 return
             if api == "buffered":
                 fp = node.sdo.open(index, sub, "wb", buffering=buffering, size=size, force_segment=force)
@@ -333,6 +336,8 @@ def _download(ctx, ch, node, srv, index, sub, length, api, variant, okind, ntype
                         fp.write(piece.decode("ascii") if text else piece)
                         if flush_some and ctx.choice(3, "flushnow") == 1:
                             fp.flush()
+                    if close_twice:
+                        fp.close()      # explicit close inside the with-block, closed again on exit
             except _ZeroProgress:
                 zero_loop = True
                 guard.raw.write = lambda b: len(b)     # let close() finish
@@ -343,6 +348,8 @@ def _download(ctx, ch, node, srv, index, sub, length, api, variant, okind, ntype
         res, exc = call(do)
     key = ("dl", lenclass(length), api, variant, okind, chunk_class, min(pos, 2))
     ctx.cover(key)
+    if api in ("raw", "buffered", "text") and close_twice:
+        ctx.probe("closed-twice")
     for p in srv.paths:
         ctx.probe(p)
     srv.paths.clear()
